@@ -352,4 +352,63 @@ theorem C11_model_satisfies_spec_closed (cfg : SelfPlayConfig) (eps : Rat)
       (playOneGame cfg outcome oracle).results :=
   C11_model_satisfies_spec cfg eps outcome oracle C11_h01 hsize hok
 
+/-! ### closed forms for the actual adjudication model
+
+  `outcome := winnerOutcome`, i.e. `Impl.winner` of Model/Winner.lean read as the loop reads
+  `position.winner()`; `Tak.C02.C02_winner_spec` proves `Impl.winner p = Spec.outcome p` for every
+  well-formed `p`, so these statements speak about the rules' adjudication.  No hypothesis is left
+  except the size and the guarantees about the engine. -/
+
+/-- The model of `play_one_game` with the model of `Position.winner()` meets the specification. -/
+theorem C11_model_satisfies_spec_winner (cfg : SelfPlayConfig) (eps : Rat) (oracle : Nat → Answer)
+    (hsize : 1 ≤ cfg.size) (hok : AnswersOK cfg eps winnerOutcome oracle) :
+    TranscriptOK cfg eps winnerOutcome (playOneGame cfg winnerOutcome oracle)
+      (traceOf oracle (playOneGame cfg winnerOutcome oracle).len)
+      (playOneGame cfg winnerOutcome oracle).results :=
+  C11_model_satisfies_spec cfg eps winnerOutcome oracle C11_h01 hsize hok
+
+/-- `C11_chain` for the actual adjudication, `h01` discharged. -/
+theorem C11_chain_winner (cfg : SelfPlayConfig) (eps : Rat) (oracle : Nat → Answer)
+    (hsize : 1 ≤ cfg.size) (hok : AnswersOK cfg eps winnerOutcome oracle) :
+    let T := playOneGame cfg winnerOutcome oracle
+    (0 < T.len → T.pos 0 = initialPos cfg.size) ∧
+    (∀ i, i + 1 < T.len →
+      (oracle i).chosen < (T.cands i).length ∧
+      T.pos (i + 1) = Rules.result (T.pos i) ((T.cands i).getD (oracle i).chosen default)) ∧
+    (∀ i, i < T.len → ∀ m ∈ T.cands i, Rules.Legal (T.pos i) m) :=
+  C11_chain cfg eps winnerOutcome oracle C11_h01 hsize hok
+
+/-- `C11_stops` for the actual adjudication, `h01` discharged. -/
+theorem C11_stops_winner (cfg : SelfPlayConfig) (eps : Rat) (oracle : Nat → Answer)
+    (hsize : 1 ≤ cfg.size) (hok : AnswersOK cfg eps winnerOutcome oracle) :
+    let T := playOneGame cfg winnerOutcome oracle
+    let fin := finalPos (initialPos cfg.size) T (traceOf oracle T.len)
+    (∀ i, i < T.len → (T.pos i).ply ≤ cfg.plyLimit ∧ winnerOutcome (T.pos i) = none) ∧
+    (∀ i, i + 1 < T.len → ¬ cfg.threshold ≤ (oracle i).v0.abs) ∧
+    ((0 < T.len ∧ cfg.threshold ≤ (oracle (T.len - 1)).v0.abs) ∨
+      cfg.plyLimit < fin.ply ∨ winnerOutcome fin ≠ none) :=
+  C11_stops cfg eps winnerOutcome oracle C11_h01 hsize hok
+
+/-- `C11_result` for the actual adjudication, `h01` discharged. -/
+theorem C11_result_winner (cfg : SelfPlayConfig) (eps : Rat) (oracle : Nat → Answer)
+    (hsize : 1 ≤ cfg.size) (hok : AnswersOK cfg eps winnerOutcome oracle) :
+    let T := playOneGame cfg winnerOutcome oracle
+    let fin := finalPos (initialPos cfg.size) T (traceOf oracle T.len)
+    let resigned := 0 < T.len ∧ cfg.threshold ≤ (oracle (T.len - 1)).v0.abs
+    (resigned → cfg.threshold ≤ (oracle (T.len - 1)).v0 → T.result = some (T.pos (T.len - 1)).toMove) ∧
+    (resigned → ¬ cfg.threshold ≤ (oracle (T.len - 1)).v0 →
+      (oracle (T.len - 1)).v0 ≤ -cfg.threshold ∧ T.result = some (T.pos (T.len - 1)).toMove.flip) ∧
+    (¬ resigned → cfg.plyLimit < fin.ply → T.result = none) ∧
+    (¬ resigned → ¬ cfg.plyLimit < fin.ply → winnerOutcome fin = some T.result) :=
+  C11_result cfg eps winnerOutcome oracle C11_h01 hsize hok
+
+/-- non-vacuity with the actual adjudication: the five-ply road game of the examples above
+    (White's road along row 0 is found by the flood fill of `Impl.winner`) -/
+example : AnswersOK Example.cfgA 0 winnerOutcome Example.engineA := by decide +kernel
+
+example :
+    (playOneGame Example.cfgA winnerOutcome Example.engineA).len = 5 ∧
+    (playOneGame Example.cfgA winnerOutcome Example.engineA).result = some .white ∧
+    (playRun Example.cfgA winnerOutcome Example.engineA).stop = .decided := by decide +kernel
+
 end Tak.C11
